@@ -722,6 +722,16 @@ func (e *SpecEnv) binary(n *ast.BinaryExpr) TV {
 			return TV{VScalar{Not(eq)}, boolT}
 		}
 	}
+	// channel identity
+	if ca, ok := e.x.force(e.st, a.V).(VChan); ok {
+		if cb, ok := e.x.force(e.st, b.V).(VChan); ok {
+			eq := chanEq(ca, cb)
+			if n.Op == token.EQL {
+				return TV{VScalar{eq}, boolT}
+			}
+			return TV{VScalar{Not(eq)}, boolT}
+		}
+	}
 	ta, tb := e.term(a), e.term(b)
 	switch n.Op {
 	case token.EQL:
@@ -903,19 +913,25 @@ func (e *SpecEnv) call(n *ast.CallExpr) TV {
 
 // specEnvFor builds the evaluation environment for a function's contract.
 func (x *Exec) specEnvFor(st *State, fn *ssa.Function, params []Value, results []Value, heap0 map[int]Value) *SpecEnv {
+	return x.specEnvForSig(st, sigOfFunc(fn), fn, params, results, heap0)
+}
+
+// specEnvForSig binds parameter and result names of a callee described by cs; fn (may be nil:
+// interface method) supplies the free variables of a closure.
+func (x *Exec) specEnvForSig(st *State, cs *calleeSig, fn *ssa.Function, params []Value, results []Value, heap0 map[int]Value) *SpecEnv {
 	env := &SpecEnv{x: x, st: st, heap0: heap0, vars: map[string]TV{}}
-	if fn.Pkg != nil {
-		env.pkg = fn.Pkg.Pkg
-	} else if fn.Parent() != nil && fn.Parent().Pkg != nil {
-		env.pkg = fn.Parent().Pkg.Pkg
-	}
-	for i, p := range fn.Params {
+	env.pkg = cs.pkg
+	for i, p := range cs.params {
 		if i < len(params) {
 			env.vars[p.Name()] = TV{params[i], p.Type()}
 		}
 	}
-	for i, fv := range fn.FreeVars {
-		idx := len(fn.Params) + i
+	var freeVars []*ssa.FreeVar
+	if fn != nil {
+		freeVars = fn.FreeVars
+	}
+	for i, fv := range freeVars {
+		idx := len(cs.params) + i
 		if idx < len(params) {
 			// a free variable is a pointer to the captured variable: the name denotes the variable
 			if pt, ok := fv.Type().Underlying().(*types.Pointer); ok {
@@ -928,7 +944,7 @@ func (x *Exec) specEnvFor(st *State, fn *ssa.Function, params []Value, results [
 		}
 	}
 	if results != nil {
-		sig := fn.Signature.Results()
+		sig := cs.results
 		for i := 0; i < sig.Len() && i < len(results); i++ {
 			tv := TV{results[i], sig.At(i).Type()}
 			env.vars[fmt.Sprintf("result%d", i)] = tv
